@@ -298,6 +298,47 @@ def run_case(r, obs):
                 obs.check(got2 == ref, "chain-second-call-differs",
                           "second call of Chain%r() = %r, expected %r" % (its, got2, ref))
                 obs.count("chain_runs")
+        # every kind of iterable itertools.chain accepts: dict, dict views, sets, deques,
+        # iterators / generators (one-shot), objects with __iter__ only, objects iterable through
+        # the sequence protocol only (__getitem__: ctypes arrays, user record containers)
+        import collections as _coll
+        import ctypes
+
+        class GetItemOnly(object):
+            def __init__(self, xs):
+                self.xs = xs
+
+            def __getitem__(self, i):
+                return self.xs[i]
+
+        class IterOnly(object):
+            def __init__(self, xs):
+                self.xs = xs
+
+            def __iter__(self):
+                return iter(self.xs)
+        makers = {
+            "dict": lambda: {"a": 1, "b": 2}, "dict-items": lambda: {"a": 1}.items(),
+            "frozenset": lambda: frozenset([5]), "deque": lambda: _coll.deque([1, 2]),
+            "generator": lambda: (i for i in range(3)), "iterator": lambda: iter([8, 9]),
+            "iter-only": lambda: IterOnly([1, 2]), "getitem-only": lambda: GetItemOnly([3, 4, 5]),
+            "ctypes-array": lambda: (ctypes.c_int * 3)(1, 2, 3), "bytes": lambda: b"ab",
+            "list": lambda: [0], "empty-getitem-only": lambda: GetItemOnly([]),
+        }
+        names = sorted(makers)
+        for m in (1, 2):
+            for combo in itertools.product(names, repeat=m):
+                ref = list(itertools.chain(*[makers[c]() for c in combo]))
+                try:
+                    got = list(lena.flow.Chain(*[makers[c]() for c in combo])())
+                except Exception as e:  # pylint: disable=broad-except
+                    got = "raised %r" % (e,)
+                obs.check(got == ref, "chain-differs:" + (
+                    "sequence-protocol-only-iterable"
+                    if any(c in ("getitem-only", "ctypes-array", "empty-getitem-only")
+                           for c in combo) else "iterable-kinds"),
+                          "Chain(%s)() = %r, itertools.chain gives %r" % (", ".join(combo), got, ref))
+                obs.count("chain_runs")
     elif k == "countfrom":
         obs.nontrivial = True
         for start in [0, 1, -5, 2.5, 10 ** 12]:
@@ -377,3 +418,6 @@ LEVEL_NOTE = ("Trusts Python's own list slicing, itertools and the /venv interpr
               "line-coverage monitor confirms _run_negative_islice, fill_into and all iterator "
               "run methods were executed.")
 TECHNIQUE = "exhaustive workload + reference-model oracle (list slicing / itertools) on every run"
+RULE += (' Chain is also given every kind of iterable itertools.chain accepts (dicts and views, sets, '
+         'deques, one-shot iterators, objects with only __iter__, objects iterable through '
+         '__getitem__ only such as ctypes arrays).')
